@@ -156,7 +156,7 @@ set_aux_harness!(c17_set_diff_step, 2);
 // @funcs Evaluator::do_std_set_member_check
 eval_stubs_call! {
 #[kani::proof]
-#[kani::unwind(4)]
+#[kani::unwind(6)]
 fn c17_set_member_check() {
     let arena = Arena::new();
     let mut program = bare_program(&arena);
@@ -203,13 +203,13 @@ fn c17_set_member_check() {
 }
 }
 
-// @harness id=c17_min_max_check_item props=C17 tier=quick cap=1500
+// @harness id=c17_min_max_check_item props=C17 tier=thorough cap=5400 mem=40
 // @desc one step of std.minArray / std.maxArray over a 3-element array from any position: the candidate is replaced only on a STRICT improvement (Greater for min, Less for max), so the first minimal / maximal element is kept; the key of the loser is dropped from the value stack; at the end the chosen element's thunk is scheduled, otherwise the next element's key is requested
 // @bound array of 3 elements, cur_index in {1,2}, any retained index, any outcome
 // @funcs Evaluator::do_std_min_array_check_item, Evaluator::do_std_max_array_check_item
 eval_stubs_call! {
 #[kani::proof]
-#[kani::unwind(5)]
+#[kani::unwind(6)]
 fn c17_min_max_check_item() {
     let arena = Arena::new();
     let mut program = bare_program(&arena);
